@@ -183,3 +183,25 @@ fix_denone_good_setui (mpq_ptr q, mpq_srcptr a)
   SIZ (mpq_numref (q)) = 0;
   mpz_set_ui (mpq_denref (q), 1);
 }
+
+/* R-SIGN.alloc positive: the signed size where the limb count is meant */
+void
+fix_realloc_bad (mpz_ptr w, mpz_srcptr u)
+{
+  mp_size_t n = SIZ (u);
+  mp_size_t an = ABS (n);
+  MPZ_REALLOC (w, n);
+  MPN_COPY (PTR (w), PTR (u), an);
+  SIZ (w) = n;
+}
+
+/* negative */
+void
+fix_realloc_good (mpz_ptr w, mpz_srcptr u)
+{
+  mp_size_t n = SIZ (u);
+  mp_size_t an = ABS (n);
+  MPZ_REALLOC (w, an);
+  MPN_COPY (PTR (w), PTR (u), an);
+  SIZ (w) = n;
+}
